@@ -913,7 +913,7 @@ HAND = [
 class C26(Prop):
     id = 'C26'
     title = 'Dataflow def/use/live sets over-approximate actual reads and writes'
-    model_modules = ['LokiModel.C26.Model']
+    model_modules = ['LokiModel.C26.Model', 'LokiModel.C26.Trace']
     props_module = 'LokiModel.Props.C26'
     findings_module = 'LokiModel.Findings.C26'
     driver = 'Drivers/C26.lean'
@@ -946,7 +946,8 @@ class C26(Prop):
                     'Loki fparser frontend (the real IR the analysis runs on)']
     assumptions = ['variable granularity of the reported sets is the whole variable name; the oracle tracks elements',
                    'WHERE, allocation and memory-query intrinsics have no FIR counterpart and are not covered']
-    extra_obligations = ['oracle: instrumented execution vs real attached sets at every executed node']
+    extra_obligations = ['oracle: instrumented execution vs real attached sets at every executed node',
+                         'post: every oracle failure inside the covered class lies in the Lean class KnownDefS / knownUS']
 
     def classes(self):
         return CLASSES
@@ -960,7 +961,7 @@ class C26(Prop):
     def gen(self, rng, tier):
         for l in HAND:
             yield Case(loads(l), stream='hand')
-        n = {'quick': 24, 'thorough': 420, 'search': 120}.get(tier, 24)
+        n = {'quick': 18, 'thorough': 420, 'search': 120}.get(tier, 18)
         for name, prog in gen_programs(rng, n):
             enrich = rng.random() < 0.6
             if not frontend_ok(prog, enrich):
@@ -968,6 +969,37 @@ class C26(Prop):
             inputs = fir.gen_inputs(rng, prog, 3)
             nontrivial = any(kids_of(s) for s in fir.find_unit(prog, fir.prog_main(prog))[4])
             yield Case([A('dfa'), enrich, prog, inputs], stream=name, nontrivial=nontrivial)
+
+    details = set()
+
+    def post(self, cases, impl_out, model_raw, oracle_fail):
+        """theorem domain vs oracle: an oracle failure for `defines` / `uses` at a node inside the class the theorems cover
+        (no ASSOCIATE/CALL) must lie in the Lean class `KnownDefS` / `knownUS` - otherwise defines_sound_partial /
+        uses_sound_partial and the oracle contradict each other (the trace of the theorems over-approximates the reads the
+        oracle sees, so the implication is exact)"""
+        from ..core import run_driver
+        lines_of = {c.line for c in cases}
+        todo = sorted(d for d in self.details if d[0] in lines_of)[:400]
+        if not todo:
+            return [], {'theorem_vs_oracle_checked': 0}
+        reqs = []
+        for line, kind, k, x, cls in todo:
+            r = loads(line)
+            reqs.append(dumps([A('known'), r[1], r[2], k, A(x), A(kind)]))
+        outs = run_driver(self, reqs)
+        problems, inside = [], 0
+        for (line, kind, k, x, cls), o in zip(todo, outs):
+            r = loads(o)
+            if str(r[0]) != 'ok':
+                problems.append(f'known query failed: {o}')
+                continue
+            covered, known = str(r[1]) == 'true', str(r[2]) == 'true'
+            if covered:
+                inside += 1
+                if not known:
+                    problems.append(f'oracle failure ({kind}, {x}, node {k}, class {cls}) lies inside the domain of the '
+                                    f'{kind}s_sound_partial theorem: {line[:300]}')
+        return problems[:5], {'theorem_vs_oracle_checked': len(todo), 'theorem_vs_oracle_inside_covered_class': inside}
 
     def impl(self, req):
         enrich, prog, _ = decode_req(req, 'dfa')
@@ -988,6 +1020,8 @@ class C26(Prop):
         u = b.unit
         decls = {str(d[1]): d for d in u[3]}
         index = b.bind(prog)
+        number = {id(al): k for k, al in enumerate(b.nodes)}
+        line = dumps(req)
         for inp in inputs:
             res, it = run_traced(prog, inp)
             if res[0] != 'ok':
@@ -1010,11 +1044,15 @@ class C26(Prop):
                     if x not in decls:
                         continue        # value cell of an ASSOCIATE
                     cls = classify_def(b, al, x)
+                    if not al.env:      # inside an ASSOCIATE the oracle speaks about the selector variable, Lean about the associate name
+                        self.details.add((line, 'def', number[id(al)], x, cls))
                     fails.setdefault(('def', cls), f'{x} is written while {_h(al.stmt)} `{dumps(al.stmt)[:80]}` executes but is not in defines_symbols')
                 for x in sorted(R - U):
                     if x not in decls:
                         continue
                     cls = classify_use(b, al, x)
+                    if not al.env:
+                        self.details.add((line, 'use', number[id(al)], x, cls))
                     fails.setdefault(('use', cls), f'{x} is read before written while {_h(al.stmt)} `{dumps(al.stmt)[:80]}` executes but is not in uses_symbols')
                 H = {y for y, k in firstw.items() if k < a} | given
                 for x in sorted(H - Lv):
